@@ -139,16 +139,17 @@ package updog
 
 //@ pred SchemaOK(s *schema) := s != nil && (forall k string :: (k in s.Columns) ==> s.Columns[k] != nil)
 //@ pred IdxInv(idx *Index) := idx != nil && SchemaOK(idx.schema) && idx.metrics != nil && GetterValid(idx.values) && CacheValid(idx.cache)
-//@   && (forall c string, v string :: (c in idx.schema.Columns) && (v in idx.schema.Columns[c].Values) ==> (idx.schema.Columns[c].Values[v] in idx.values.has))
+//@   && (forall c string, v string :: (c in idx.schema.Columns) && (v in idx.schema.Columns[c].Values) ==> hasCol(idx.values, idx.schema.Columns[c].Values[v]))
 
-//@ ghost field colGetter.has iset
+// hasCol: a bitmap for value index k is available from the getter. For the preloaded getter: it is in the map.
+// For the on-demand getter every lookup yields a bitmap or an error, so availability is not needed for safety.
+//@ pure hasCol(g colGetter, k uint64) bool := typeof(g) == ptrtag(preloadedColGetter) ==> (k in g.(*preloadedColGetter).values)
 //@ pred GetterValid(g colGetter) := g != nil && (typeof(g) == ptrtag(onDemandColGetter) || typeof(g) == ptrtag(preloadedColGetter))
 //@   && (typeof(g) == ptrtag(onDemandColGetter) ==> iref(g) != nil && DBOpen(g.(*onDemandColGetter).db))
-//@   && (typeof(g) == ptrtag(preloadedColGetter) ==> iref(g) != nil && (forall k uint64 :: (k in g.has) ==>
-//@         (k in g.(*preloadedColGetter).values) && g.(*preloadedColGetter).values[k] != nil))
+//@   && (typeof(g) == ptrtag(preloadedColGetter) ==> iref(g) != nil && (forall k uint64 :: (k in g.(*preloadedColGetter).values) ==> g.(*preloadedColGetter).values[k] != nil))
 //@ interface colGetter.GetCol(g, key) (bm, err)
 //@   requires GetterValid(g)
-//@   ensures err == nil && (key in g.has) ==> bm != nil
+//@   ensures err == nil && hasCol(g, key) ==> bm != nil
 //@   ensures err != nil ==> bm == nil
 
 //@ interface Expression.eval(e, idx) (bm, err)
@@ -236,7 +237,7 @@ package updog
 
 //@ func [C02,C08,C14,C04] (*Query).groupBy(q, groupByFields, result, idx) (finalResult)
 //@   requires IdxInv(idx) && result != nil
-//@   requires forall j idx(groupByFields) :: forall a idx(groupByFields[j].Values) :: (groupByFields[j].Values[a].Idx in idx.values.has)
+//@   requires forall j idx(groupByFields) :: forall a idx(groupByFields[j].Values) :: hasCol(idx.values, groupByFields[j].Values[a].Idx)
 //@   ensures [C02] empty_list_no_groups: len(groupByFields) == 0 ==> len(finalResult) == 0
 //@   ensures [C02] shape: forall g idx(finalResult) :: len(finalResult[g].Fields) == len(groupByFields)
 //@   loop 1
@@ -244,11 +245,11 @@ package updog
 //@   loop 2
 //@     invariant 0 <= $i && RGsOK(resultGroups, $i1) && RGsOK(newResultGroups, $i1 + 1)
 //@     invariant arr(newResultGroups) == nil || arr(newResultGroups) != arr(resultGroups)
-//@     invariant forall a idx(gbf.Values) :: (gbf.Values[a].Idx in idx.values.has)
+//@     invariant forall a idx(gbf.Values) :: hasCol(idx.values, gbf.Values[a].Idx)
 //@   loop 3
 //@     invariant 0 <= $i && RGsOK(resultGroups, $i1) && RGsOK(newResultGroups, $i1 + 1)
 //@     invariant arr(newResultGroups) == nil || arr(newResultGroups) != arr(resultGroups)
-//@     invariant forall a idx(gbf.Values) :: (gbf.Values[a].Idx in idx.values.has)
+//@     invariant forall a idx(gbf.Values) :: hasCol(idx.values, gbf.Values[a].Idx)
 //@     invariant rg.result != nil && len(rg.fields) == $i1
 //@   loop 4
 //@     invariant 0 <= $i && RGsOK(resultGroups, len(groupByFields))
@@ -315,3 +316,24 @@ package updog
 //@ fieldinv global.keySchema: len($v) == 1 && cap($v) == 1 && arr($v) != nil && heap("[]uint8")[arr($v)][off($v)] == 83
 //@ fieldinv global.keyNextRowID: len($v) == 1 && cap($v) == 1 && arr($v) != nil && heap("[]uint8")[arr($v)][off($v)] == 73
 //@ fieldinv global.keyPrefixValue: len($v) == 1 && cap($v) == 1 && arr($v) != nil && heap("[]uint8")[arr($v)][off($v)] == 86
+
+
+//@ func [C15,C16,C14] newPreloadedColGetter(db) (g, err)
+//@   requires DBOpen(db)
+//@   ensures [C15] err != nil ==> g == nil
+//@   ensures [C15] err == nil ==> GetterValid(g) && typeof(g) == ptrtag(preloadedColGetter) && fresh(iref(g))
+//@   ensures [C16] db.committed == old(db.committed) && db.ncommits == old(db.ncommits) && db.wopen == old(db.wopen) && !db.closed
+
+// the callback of db.View inside newPreloadedColGetter (executed in place by the verifier)
+//@ func newPreloadedColGetter$1(tx) (err)
+//@   inline
+//@   loop 1
+//@     invariant cg != nil && !(cg in old($alloc)) && cg.values != nil && !(cg.values in old($alloc))
+//@     invariant forall k2 uint64 :: (k2 in cg.values) ==> cg.values[k2] != nil
+//@     invariant c != nil
+
+//@ func [C15,C16] WithPreloadedData$1(idx) (err) inherits IndexOption.call
+//@ func [C15,C16] WithCache$1(idx) (err) inherits IndexOption.call
+//@   assumes valid_cache_given: CacheValid(cache)
+//@ func [C15,C16] WithIndexMetrics$1(c) (err) inherits IndexOption.call
+//@   assumes metrics_given: metrics != nil
